@@ -1,4 +1,5 @@
 From RV Require Import Lib.Res Repl.ClientTicks.
+From RV Require Generated.Params.
 From Coq Require Import ZifyBool ZifyN.
 Open Scope N_scope.
 Ltac Zify.zify_post_hook ::= Z.div_mod_to_equations.
@@ -362,3 +363,7 @@ Proof.
   destruct (al_get i (ct_mutations ct)) as [info|]; [|reflexivity].
   destruct (mi_timestamp info <? min_timestamp); reflexivity.
 Qed.
+
+(* width of MutateIndex (the model wraps at 2^16): re-read from the source on every run *)
+Lemma mutate_index_width_pinned : RV.Generated.Params.mutate_index_width = 16.
+Proof. reflexivity. Qed.
